@@ -139,6 +139,9 @@ func elementToString(formatter string, elem r.Element) (string, error) {
 	return "", zerr.NewErrorSLOT("无效的格式化字符串")
 }
 
+// maxFixedPrecision - the maximum N of {#.N}
+const maxFixedPrecision = 1000
+
 func parseNumberFormatter(formatter string, value *value.Number) (string, error) {
 	// formatter: [+][.precision][E|%]
 	const (
@@ -198,6 +201,10 @@ func parseNumberFormatter(formatter string, value *value.Number) (string, error)
 				switch state {
 				case sFixedSign:
 					numFixedPrecision = numFixedPrecision*10 + int(ch-'0')
+					// avoid overflow (of the number itself, and of the precision fmt supports)
+					if numFixedPrecision > maxFixedPrecision {
+						return "", zerr.NewErrorSLOT("无效的格式化字符串")
+					}
 				default:
 					return "", zerr.NewErrorSLOT("无效的格式化字符串")
 				}
